@@ -43,6 +43,11 @@ type solver struct {
 
 func newSolver(tt *termTable, argv []string, timeoutMs int) *solver {
 	s := &solver{tt: tt, argv: argv, timeout: timeoutMs}
+	if f := os.Getenv("GOSX_SOLVER_LOG"); f != "" {
+		if w, err := os.OpenFile(f, os.O_CREATE|os.O_WRONLY|os.O_APPEND, 0644); err == nil {
+			s.log = w
+		}
+	}
 	if d := os.Getenv("GOSX_DUMP_SLOW"); d != "" {
 		s.dumpDir = d
 		s.keepScript = true
